@@ -133,7 +133,7 @@ CONF_PY = "extensions = ['myst_parser']\nproject = 'simproj'\nexclude_patterns =
 
 def sphinx_build(srcdir: str, outname: str, root: str, confoverrides: dict | None = None, builder: str = "xml",
                  parallel: int = 0, hooks=None, keep_app: bool = False, write_phase: bool = True,
-                 observe: str = "written", incremental: bool = False, share_confoverrides: bool = False):
+                 observe: str = "written", incremental: bool = False, share_confoverrides: bool = False, collect_doctrees: bool = False):
     """One fresh in-process Sphinx application on ``srcdir``.
 
     Returns ``("ok", {docname: output}, sorted_warnings, extra)`` or ``("exc", signature, warnings, extra)``.
@@ -187,6 +187,17 @@ def sphinx_build(srcdir: str, outname: str, root: str, confoverrides: dict | Non
                         outputs[docname] = scrub(app.env.get_doctree(docname).pformat(), root)
                     except Exception as e:  # noqa: BLE001
                         outputs[docname] = f"<no doctree: {type(e).__name__}>"
+            if collect_doctrees:
+                # the read-phase (unresolved) doctrees as pickled in the environment: a function of each document's
+                # own text, path, configuration and included files only
+                dts = {}
+                for docname in sorted(app.env.found_docs):
+                    try:
+                        dts[docname] = canon_sets(scrub(app.env.get_doctree(docname).pformat(), root))
+                    except Exception as e:  # noqa: BLE001
+                        dts[docname] = f"<no doctree: {type(e).__name__}>"
+                extra["doctrees"] = dts
+                extra["dependencies"] = {d: sorted(str(x) for x in v) for d, v in sorted(app.env.dependencies.items())}
             if keep_app:
                 extra["app"] = app
     except Exception as e:  # noqa: BLE001
